@@ -2,6 +2,8 @@ import SJ.Model.Marshal
 import SJ.Model.Stage2
 import SJ.Model.Walk
 import SJ.Model.WF
+import SJ.Model.WFDense
+import SJ.Model.Stream
 import SJ.Model.Serialize
 import SJ.Model.Stage1Bits
 import SJ.Model.Pipeline
@@ -368,6 +370,15 @@ def step (st : Store) (line : String) : Store × String :=
     | none => (st, "bad-ref")
     | some pj => ({ st with pjs := st.pjs.insert pn { pj with msg := pj.msg.map (fun _ => 0xff) } }, "ok")
   | ["reset"] => ({}, "ok")
+  | ["chunks", fin, lens, h] =>
+    match unhex h with
+    | some b =>
+      let ls := (lens.splitOn ",").filterMap String.toNat?
+      let data := b.toList
+      let (reads, _) := ls.foldl (fun (acc : List (List UInt8) × List UInt8) n => (acc.1 ++ [acc.2.take n], acc.2.drop n)) ([], data)
+      let (cs, f) := Stream.run (reads.filter (· ≠ [])) (if fin == "eof" then .eof else .fail)
+      (st, s!"chunks {if f == .eof then "eof" else "fail"} {if cs.isEmpty then "-" else ",".intercalate (cs.map (fun c => toString c.length))}")
+    | none => (st, "bad-op")
   | ["sched", slots, trace] =>
     match slots.toNat? with
     | some sl =>
@@ -399,7 +410,7 @@ def step (st : Store) (line : String) : Store × String :=
   | ["wf", pn] =>
     match st.pjs[pn]? with
     | none => (st, "bad-ref")
-    | some pj => (st, match decodeTape pj with | some d => "wf " ++ ovalStr (.arr d) | none => "malformed")
+    | some pj => (st, match decodeTapeD pj with | some d => "wf " ++ ovalStr (.arr d) | none => "malformed")
   | ["serde", dst, src] =>
     match st.pjs[src]? with
     | none => (st, "bad-ref")
